@@ -116,6 +116,10 @@ def run_case(case):
         nact += 1
     lp = rng.choice([0.2, 0.4, 0.7]) if case["impl"] == "sync" else 0.0
     strat = sched.RandomWalk(case["seed"], stay=rng.choice([0.2, 0.5]), line_prob=lp) if rng.random() < 0.7 else sched.PCT(case["seed"], nact, depth=rng.choice([1, 2, 3]), horizon=80, line_prob=lp)
+    if int(str(case["seed"]).split(":")[-1].strip("abcdefghijklmnopqrstuvwxyz") or 0) % 8 == 5:
+        # one actor frozen for long stretches wherever it is (e.g. between reading and writing the id counter)
+        strat = sched.LazyActor(case["seed"], nact - 1, p=0.03, stay=0.5, line_prob=lp)
+        strat.armed = True
     res = run_opens(case["impl"], steps, strat, dims, lp > 0, tolerate_errors=reconnect)
     stats["reconnecting_schedules"] = 1 if reconnect else 0
     stats["schedules_with_refused_open"] = 1 if refused_sched else 0
